@@ -143,6 +143,23 @@ def chessOp (args : List String) : String :=
       withSpec (boolStr (d.pos.isAttacked c sq))
         ((Spec.parseFen f).map fun g => boolStr (Spec.attackedBy g.pos (absColor c).opp sq))
     | _, _, _ => "err"
+  | "isattackedby" :: cs :: sqs :: lst :: fen =>
+    -- `Position.IsAttackedBy(c, sq, list)`: is `sq` attacked by one of the listed kinds of pieces of the opponent of `c`
+    -- (`lst`: the piece codes as digits, in the order given; any list, also ones no caller in the repository uses)
+    let f := joinSp fen
+    let pieces := lst.toList.filterMap fun ch => if '0' ≤ ch && ch ≤ '6' then some (Piece.ofCode (ch.toNat - 48)) else none
+    match Fen.decode f.toList, colorOf? cs, sqs.toNat? with
+    | some d, some c, some sq =>
+      withSpec (boolStr (d.pos.isAttackedBy c sq pieces))
+        ((Spec.parseFen f).map fun g =>
+          let kinds := pieces.filterMap absKind
+          boolStr (Spec.allSquares.any fun s =>
+            match g.pos.at s with
+            | some (c', k) =>
+              c' = (absColor c).opp && kinds.contains k &&
+                (if k = .pawn then (Spec.pawnTargets c' s).contains sq else (Spec.officerTargets g.pos.occ k s).contains sq)
+            | none => false))
+    | _, _, _ => "err"
   | "ischecked" :: cs :: fen =>
     let f := joinSp fen
     match Fen.decode f.toList, colorOf? cs with
